@@ -105,6 +105,9 @@ func runC06(r *Run) {
 	nBefore := t.Draw(3)
 	compress := t.Draw(2) == 1
 	r.S.Stick = []int{0, 60}[t.Draw(2)]
+	r.DrawYields()
+	peerDropsAfterEcho := t.Draw(2) == 1 // the peer closes its transport right after echoing
+	closerHasCloseRead := t.Draw(3) == 2 // libpair: the closing side has CloseRead active
 	r.S.MaxSim = 2 * time.Minute
 	r.S.MaxSteps = 20000
 	bg := context.Background()
@@ -150,7 +153,12 @@ func runC06(r *Run) {
 		readerRet := false
 		if readerMode%2 == 1 {
 			r.S.Go("reader", func() {
-				_, _, readerErr = c.Read(bg)
+				// data that arrives before the peer's Close may still be read
+				for {
+					if _, _, readerErr = c.Read(bg); readerErr != nil {
+						break
+					}
+				}
 				readerRet = true
 			})
 		}
@@ -178,6 +186,10 @@ func runC06(r *Run) {
 				switch echoMode {
 				case 0:
 					peer.Send(wsref.Frame{Fin: true, Opcode: wsref.OpClose, Payload: f.Payload})
+					if peerDropsAfterEcho {
+						rc.Raw.Close()
+						return
+					}
 				case 1:
 					other := 1001
 					if code == 1001 {
@@ -334,6 +346,9 @@ func runC06(r *Run) {
 		r.Class = fmt.Sprintf("%s/code%s/role%d", sig, codeClass(code), role)
 		var closeErr, rerr error
 		got := 0
+		if closerHasCloseRead {
+			a.CloseRead(bg)
+		}
 		r.S.Go("closer", func() {
 			for i := 0; i < nBefore; i++ {
 				r.S.Park("a.closer.w")
